@@ -55,7 +55,7 @@ ASSUME = ["refs/assignref.py (permutation brute force; own Hungarian, cross-chec
           "rewards are finite (no NaN/inf); visibility masks are boolean arrays",
           "scenario part: ray stand-in (rvmon/shimray.py) replaces the executor; everything else is repository code"]
 SHARDS = {"quick": 4, "thorough": 16}
-BUDGET_S = {"quick": 150, "thorough": 1200}
+BUDGET_S = {"quick": 180, "thorough": 1500}
 DECIDING = ["wellformed", "visible_only", "sensor_at_most_one", "target_at_most_one", "munkres_optimal", "munkres_masked_value",
             "greedy_argmax", "allvisible_exact", "random_valid", "random_seeded", "relabel", "normalize", "reward_formula",
             "engine_decision", "tasks_table"]
